@@ -40,8 +40,13 @@ type deferRec struct {
 	stmt  *ast.DeferStmt
 	blk   *cfg.Block
 	idx   int
-	atoms []ast.Node
+	atoms []deferAtom
 	lit   *ast.FuncLit
+}
+
+type deferAtom struct {
+	n   ast.Node
+	may bool
 }
 
 type litMode int
@@ -136,27 +141,27 @@ func (c *Ctx) newFlow(name string, info *types.Info, body *ast.BlockStmt) *Flow 
 				rec := &deferRec{stmt: ds, blk: b, idx: len(list)}
 				// arguments are evaluated now; the call (and an IIFE body) runs at exit
 				for _, a := range ds.Call.Args {
-					f.collect(a, nil, func(n ast.Node, lit *ast.FuncLit) { list = append(list, &Atom{N: n, Blk: b, Lit: lit}) })
+					f.collect(a, nil, func(n ast.Node, lit *ast.FuncLit, may bool) { list = append(list, &Atom{N: n, Blk: b, Lit: lit, May: may}) })
 				}
 				if lit, ok := ast.Unparen(ds.Call.Fun).(*ast.FuncLit); ok {
 					rec.lit = lit
-					f.collect(lit.Body, lit, func(n ast.Node, l *ast.FuncLit) { rec.atoms = append(rec.atoms, n) })
+					f.inlineBody(lit, false, func(n ast.Node, l *ast.FuncLit, may bool) { rec.atoms = append(rec.atoms, deferAtom{n, may}) })
 				} else {
-					f.collect(ds.Call.Fun, nil, func(n ast.Node, l *ast.FuncLit) { rec.atoms = append(rec.atoms, n) })
+					f.collect(ds.Call.Fun, nil, func(n ast.Node, l *ast.FuncLit, may bool) { rec.atoms = append(rec.atoms, deferAtom{n, may}) })
 				}
-				rec.atoms = append(rec.atoms, ds.Call)
+				rec.atoms = append(rec.atoms, deferAtom{ds.Call, false})
 				f.defers = append(f.defers, rec)
 				list = append(list, &Atom{N: ds, Blk: b})
 				continue
 			}
 			if gs, ok := n.(*ast.GoStmt); ok {
 				for _, a := range gs.Call.Args {
-					f.collect(a, nil, func(n ast.Node, lit *ast.FuncLit) { list = append(list, &Atom{N: n, Blk: b, Lit: lit}) })
+					f.collect(a, nil, func(n ast.Node, lit *ast.FuncLit, may bool) { list = append(list, &Atom{N: n, Blk: b, Lit: lit, May: may}) })
 				}
 				list = append(list, &Atom{N: gs, Blk: b})
 				continue
 			}
-			f.collect(n, nil, func(n ast.Node, lit *ast.FuncLit) { list = append(list, &Atom{N: n, Blk: b, Lit: lit}) })
+			f.collect(n, nil, func(n ast.Node, lit *ast.FuncLit, may bool) { list = append(list, &Atom{N: n, Blk: b, Lit: lit, May: may}) })
 		}
 		for i, a := range list {
 			a.Idx = i
@@ -177,8 +182,8 @@ func (c *Ctx) newFlow(name string, info *types.Info, body *ast.BlockStmt) *Flow 
 					continue
 				}
 				may := !f.mustPass(d.blk, b)
-				for _, n := range d.atoms {
-					ex = append(ex, &Atom{N: n, Blk: b, May: may, Lit: d.lit, Deferred: true})
+				for _, da := range d.atoms {
+					ex = append(ex, &Atom{N: da.n, Blk: b, May: may || da.may, Lit: d.lit, Deferred: true})
 				}
 			}
 			base := len(f.atoms[b])
@@ -192,30 +197,39 @@ func (c *Ctx) newFlow(name string, info *types.Info, body *ast.BlockStmt) *Flow 
 }
 
 // collect walks n in post-order; literals are inlined or skipped by policy.
-func (f *Flow) collect(n ast.Node, cur *ast.FuncLit, emit func(ast.Node, *ast.FuncLit)) {
+// Nodes in the right operand of && / || and in the body of an inlined literal
+// that is not certainly executed are flagged "may" (not guaranteed to run).
+func (f *Flow) collect(n ast.Node, cur *ast.FuncLit, emit func(ast.Node, *ast.FuncLit, bool)) {
 	if n == nil {
 		return
 	}
-	var walk func(n ast.Node, cur *ast.FuncLit)
-	walk = func(n ast.Node, cur *ast.FuncLit) {
+	var walk func(n ast.Node, cur *ast.FuncLit, may bool)
+	walk = func(n ast.Node, cur *ast.FuncLit, may bool) {
 		switch x := n.(type) {
 		case nil:
 			return
 		case *ast.FuncLit:
 			// reached only when not handled by the parent CallExpr: skipped
-			emit(x, cur)
+			emit(x, cur, may)
 			return
+		case *ast.BinaryExpr:
+			if x.Op == token.LAND || x.Op == token.LOR {
+				walk(x.X, cur, may)
+				walk(x.Y, cur, true)
+				emit(x, cur, may)
+				return
+			}
 		case *ast.CallExpr:
 			// IIFE
 			if lit, ok := ast.Unparen(x.Fun).(*ast.FuncLit); ok {
 				for _, a := range x.Args {
-					walk(a, cur)
+					walk(a, cur, may)
 				}
-				walk(lit.Body, lit)
-				emit(x, cur)
+				f.inlineBody(lit, may, emit)
+				emit(x, cur, may)
 				return
 			}
-			walk(x.Fun, cur)
+			walk(x.Fun, cur, may)
 			mode := litSkip
 			if fn := callee(f.Info, x); fn != nil {
 				if _, ok := syncCombinators[qualifiedName(fn)]; ok {
@@ -224,19 +238,111 @@ func (f *Flow) collect(n ast.Node, cur *ast.FuncLit, emit func(ast.Node, *ast.Fu
 			}
 			for _, a := range x.Args {
 				if lit, ok := ast.Unparen(a).(*ast.FuncLit); ok && mode == litInline {
-					walk(lit.Body, lit)
+					f.inlineBody(lit, true, emit)
 					continue
 				}
-				walk(a, cur)
+				walk(a, cur, may)
 			}
-			emit(x, cur)
+			emit(x, cur, may)
 			return
 		}
 		// generic: children first, then the node
-		children(n, func(ch ast.Node) { walk(ch, cur) })
-		emit(n, cur)
+		children(n, func(ch ast.Node) { walk(ch, cur, may) })
+		emit(n, cur, may)
 	}
-	walk(n, cur)
+	walk(n, cur, false)
+}
+
+// inlineBody places the statements of an inlined literal: straight-line
+// prefix statements keep the caller's certainty, everything inside compound
+// statements is "may".
+func (f *Flow) inlineBody(lit *ast.FuncLit, may bool, emit func(ast.Node, *ast.FuncLit, bool)) {
+	var walkStmt func(s ast.Stmt, may bool)
+	walkStmt = func(s ast.Stmt, may bool) {
+		switch x := s.(type) {
+		case *ast.BlockStmt:
+			for _, st := range x.List {
+				walkStmt(st, may)
+				if _, ok := st.(*ast.ReturnStmt); ok {
+					break
+				}
+			}
+		case *ast.ExprStmt, *ast.AssignStmt, *ast.IncDecStmt, *ast.SendStmt, *ast.DeclStmt, *ast.ReturnStmt:
+			f.collect(s, lit, func(n ast.Node, l *ast.FuncLit, m bool) {
+				if l == nil {
+					l = lit
+				}
+				emit(n, l, may || m)
+			})
+		case *ast.IfStmt:
+			if x.Init != nil {
+				walkStmt(x.Init, may)
+			}
+			f.collect(x.Cond, lit, func(n ast.Node, l *ast.FuncLit, m bool) { emit(n, lit, may || m) })
+			walkStmt(x.Body, true)
+			if x.Else != nil {
+				walkStmt(x.Else, true)
+			}
+			// statements after an if whose body returns are conditional too: handled by caller via 'may' of later stmts? keep certainty (over-approximation only affects must-rules conservatively below)
+		default:
+			// loops, switches, selects, defers, go: contents are "may"
+			ast.Inspect(s, func(n ast.Node) bool {
+				if n == nil {
+					return true
+				}
+				if _, ok := n.(*ast.FuncLit); ok {
+					emit(n, lit, true)
+					return false
+				}
+				return true
+			})
+			f.collect2(s, lit, emit)
+		}
+	}
+	// a body with an early conditional return makes later statements uncertain
+	uncertain := may
+	for _, st := range lit.Body.List {
+		walkStmt(st, uncertain)
+		if containsReturn(st) {
+			uncertain = true
+		}
+	}
+}
+
+// collect2 emits every sub-node of a compound statement as "may".
+func (f *Flow) collect2(s ast.Stmt, lit *ast.FuncLit, emit func(ast.Node, *ast.FuncLit, bool)) {
+	ast.Inspect(s, func(n ast.Node) bool {
+		if n == nil {
+			return true
+		}
+		if _, ok := n.(*ast.FuncLit); ok {
+			return false
+		}
+		return true
+	})
+	var post func(n ast.Node)
+	post = func(n ast.Node) {
+		if _, ok := n.(*ast.FuncLit); ok {
+			return
+		}
+		children(n, post)
+		emit(n, lit, true)
+	}
+	post(s)
+}
+
+func containsReturn(s ast.Stmt) bool {
+	found := false
+	ast.Inspect(s, func(n ast.Node) bool {
+		if _, ok := n.(*ast.FuncLit); ok {
+			return false
+		}
+		if _, ok := n.(*ast.ReturnStmt); ok {
+			found = true
+		}
+		return true
+	})
+	return found
 }
 
 // children calls fn for each direct child of n in source order.
@@ -529,23 +635,60 @@ func (f *Flow) Cond(b *cfg.Block) ast.Expr {
 	return nil
 }
 
-// EdgesWhere collects branch edges: pred reports, for a condition, whether it
-// matches and which polarity (true: the edge taken when cond is true).
+// condFacts lists the atomic conditions known on an edge: cond evaluated to v.
+// !, && (on the true edge) and || (on the false edge) are destructured.
+func condFacts(e ast.Expr, v bool, out *[]condFact) {
+	e = ast.Unparen(e)
+	switch x := e.(type) {
+	case *ast.UnaryExpr:
+		if x.Op == token.NOT {
+			condFacts(x.X, !v, out)
+			return
+		}
+	case *ast.BinaryExpr:
+		if x.Op == token.LAND && v {
+			condFacts(x.X, true, out)
+			condFacts(x.Y, true, out)
+			return
+		}
+		if x.Op == token.LOR && !v {
+			condFacts(x.X, false, out)
+			condFacts(x.Y, false, out)
+			return
+		}
+	}
+	*out = append(*out, condFact{e, v})
+}
+
+type condFact struct {
+	E   ast.Expr
+	Val bool
+}
+
+// EdgeFacts returns the atomic facts holding on edge (b, succ).
+func (f *Flow) EdgeFacts(b *cfg.Block, succ int) []condFact {
+	cond := f.Cond(b)
+	if cond == nil {
+		return nil
+	}
+	var out []condFact
+	condFacts(cond, succ == 0, &out)
+	return out
+}
+
+// EdgesWhere collects branch edges on which an atomic condition matching pred
+// is known to have the value pred asks for: pred returns (match, wantValue).
 func (f *Flow) EdgesWhere(pred func(cond ast.Expr) (match bool, whenTrue bool)) map[Edge]bool {
 	out := map[Edge]bool{}
 	for _, b := range f.G.Blocks {
-		if !b.Live {
+		if !b.Live || f.Cond(b) == nil {
 			continue
 		}
-		cond := f.Cond(b)
-		if cond == nil {
-			continue
-		}
-		if m, pol := pred(cond); m {
-			if pol {
-				out[Edge{b, 0}] = true
-			} else {
-				out[Edge{b, 1}] = true
+		for succ := 0; succ < 2; succ++ {
+			for _, fact := range f.EdgeFacts(b, succ) {
+				if m, pol := pred(fact.E); m && pol == fact.Val {
+					out[Edge{b, succ}] = true
+				}
 			}
 		}
 	}
@@ -632,35 +775,32 @@ func (f *Flow) ErrEdgesOf(m Match, failed bool) (map[Edge]bool, int) {
 				continue
 			}
 			n++
-			// find the condition testing errObj: same block
+			// find conditions testing errObj
 			for _, bb := range f.G.Blocks {
-				if !bb.Live {
+				if !bb.Live || f.Cond(bb) == nil {
 					continue
 				}
-				cond := f.Cond(bb)
-				if cond == nil {
-					continue
-				}
-				be, ok := ast.Unparen(cond).(*ast.BinaryExpr)
-				if !ok || (be.Op != token.NEQ && be.Op != token.EQL) || !isNilIdent(f.Info, be.Y) {
-					continue
-				}
-				id, ok := ast.Unparen(be.X).(*ast.Ident)
-				if !ok || f.Info.ObjectOf(id) != errObj {
-					continue
-				}
-				// the assignment must reach the condition without another assignment to errObj in between
 				if bb != b && !f.reachesWithoutReassign(b, as, bb, errObj) {
 					continue
 				}
-				if bb == b && as.Pos() > cond.Pos() {
+				if bb == b && as.Pos() > f.Cond(bb).Pos() {
 					continue
 				}
-				nonNilOnTrue := be.Op == token.NEQ
-				if nonNilOnTrue == failed {
-					out[Edge{bb, 0}] = true
-				} else {
-					out[Edge{bb, 1}] = true
+				for succ := 0; succ < 2; succ++ {
+					for _, fact := range f.EdgeFacts(bb, succ) {
+						be, ok := fact.E.(*ast.BinaryExpr)
+						if !ok || (be.Op != token.NEQ && be.Op != token.EQL) || !isNilIdent(f.Info, be.Y) {
+							continue
+						}
+						id, ok := ast.Unparen(be.X).(*ast.Ident)
+						if !ok || f.Info.ObjectOf(id) != errObj {
+							continue
+						}
+						nonNil := (be.Op == token.NEQ) == fact.Val
+						if nonNil == failed {
+							out[Edge{bb, succ}] = true
+						}
+					}
 				}
 			}
 		}
